@@ -4,9 +4,12 @@ package c12
 import (
 	"bytes"
 	"fmt"
+	"github.com/mycoria/mycoria/frame"
 	"math/rand/v2"
+	"net/netip"
 	"strings"
 	"sync"
+	"time"
 
 	"github.com/mycoria/mycoria/m"
 
@@ -293,6 +296,114 @@ func checkRebuild(res *core.Result, fwd1, ret1, fwd2, ret2 []m.SwitchLabel) {
 	res.Case("rebuild|"+pathKey(fwd1, ret1)+">"+pathKey(fwd2, ret2), true)
 }
 
+// checkTableUpdate: a route is stored in a routing table, taken out again, its hop labels are changed (a relay
+// reconnected) and it is stored again: the blocks the table then holds must carry the new path.
+func checkTableUpdate(res *core.Result, r *rand.Rand, fwd1, ret1, fwd2, ret2 []m.SwitchLabel) {
+	if len(fwd1) != len(fwd2) || refSize(fwd1, ret1) > 255 || refSize(fwd2, ret2) > 255 {
+		return
+	}
+	self := netip.MustParseAddr("fd10::1")
+	dst := netip.MustParseAddr("fd20::9")
+	mk := func(fwd, ret []m.SwitchLabel) []m.SwitchHop {
+		hops := make([]m.SwitchHop, len(fwd))
+		for i := range hops {
+			a := [16]byte{0xfd, 0x30, 15: byte(i + 1)}
+			hops[i] = m.SwitchHop{Router: netip.AddrFrom16(a), ForwardLabel: fwd[i], ReturnLabel: ret[i], Delay: 5}
+		}
+		hops[0].Router = self
+		hops[len(hops)-1].Router = dst
+		return hops
+	}
+	tbl := m.NewRoutingTable(m.RoutingTableConfig{RoutablePrefixes: m.GetRoutablePrefixesFor(self, netip.MustParsePrefix("fd00::/8"))})
+	hops1 := mk(fwd1, ret1)
+	entry := m.RoutingTableEntry{DstIP: dst, NextHop: hops1[1].Router, Path: m.SwitchPath{Hops: hops1}, Source: m.RouteSourceGossip, Expires: time.Now().Add(time.Hour)}
+	if len(hops1) < 3 {
+		return
+	}
+	if added, err := tbl.AddRoute(entry); err != nil || !added {
+		return
+	}
+	got, _ := tbl.LookupNearest(dst)
+	if got == nil {
+		return
+	}
+	upd := *got // what a caller holding the entry updates
+	upd.Path.Hops = mk(fwd2, ret2)
+	wit := map[string]any{"first_forward": fwd1, "second_forward": fwd2, "second_return": ret2, "case_id": "table-update"}
+	if added, err := tbl.AddRoute(upd); err != nil || !added {
+		res.Violate("valid-path-refused:table-update", fmt.Sprintf("storing an updated route (new hop labels) was refused: added=%v err=%v", added, err), wit)
+		return
+	}
+	got2, _ := tbl.LookupNearest(dst)
+	if got2 == nil {
+		res.Violate("traversal-failed:table-update", "the updated route is not in the table", wit)
+		return
+	}
+	want := refSize(fwd2, ret2)
+	if len(got2.Path.ForwardBlock) != want || len(got2.Path.ReturnBlock) != want {
+		res.Violate("blocks-wrong-length:table-update", fmt.Sprintf("after a route update the table holds blocks of %d/%d bytes, the new labels need %d (forward block %x)", len(got2.Path.ForwardBlock), len(got2.Path.ReturnBlock), want, got2.Path.ForwardBlock), wit)
+		return
+	}
+	if fail := traverse(fwd2, ret2, got2.Path.ForwardBlock, got2.Path.ReturnBlock, want); fail != "" {
+		res.Violate("traversal-failed:table-update", fmt.Sprintf("after a route update the blocks held by the table do not carry the new path: %s (forward block %x)", fail, got2.Path.ForwardBlock), wit)
+		return
+	}
+	res.Count("table_route_updates", 1)
+	_ = r
+}
+
+// checkFrameCarrier: the forward block of a valid path travels in a frame: building the frame, parsing it and
+// rotating the block in place hop by hop inside the frame's bytes must work for every block size up to 255 and
+// must leave the message behind the block untouched.
+func checkFrameCarrier(res *core.Result, b *frame.Builder, fwd, ret []m.SwitchLabel) {
+	if refSize(fwd, ret) > 255 {
+		return
+	}
+	hops := make([]m.SwitchHop, len(fwd))
+	for i := range hops {
+		hops[i] = m.SwitchHop{ForwardLabel: fwd[i], ReturnLabel: ret[i]}
+	}
+	sp := &m.SwitchPath{Hops: hops}
+	if err := sp.BuildBlocks(); err != nil {
+		return
+	}
+	size := len(sp.ForwardBlock)
+	wit := map[string]any{"forward_labels": fwd, "return_labels": ret, "block_size": size, "case_id": fmt.Sprintf("frame-carrier|%d", size)}
+	msg := []byte("c12-message-behind-the-switch-block")
+	src, dst := netip.MustParseAddr("fd10::1"), netip.MustParseAddr("fd20::9")
+	f, err := b.NewFrameV1(src, dst, frame.SessionData, sp.ForwardBlock, msg, nil)
+	if err != nil {
+		res.Violate("frame-refuses-valid-block", fmt.Sprintf("a frame cannot carry the %d-byte switch block of a valid %d-hop path: %v", size, len(fwd), err), wit)
+		return
+	}
+	d, _ := f.FrameDataWithMargins(0, 0)
+	raw := append([]byte(nil), d...)
+	f.ReturnToPool()
+	g, err := b.ParseFrame(raw, nil, 0)
+	if err != nil {
+		res.Violate("frame-refuses-valid-block", fmt.Sprintf("a frame with a %d-byte switch block does not parse: %v", size, err), wit)
+		return
+	}
+	defer g.ReturnToPool()
+	block := g.SwitchBlock()
+	for i := 0; i < len(fwd); i++ {
+		next, err := m.NextRotateSwitchBlock(block, ret[i])
+		if err != nil || next != fwd[i] {
+			res.Violate("traversal-failed:in-frame", fmt.Sprintf("rotating the %d-byte block inside a frame: hop %d gave label %d (err %v), want %d", size, i, next, err, fwd[i]), wit)
+			return
+		}
+	}
+	if !bytes.Equal(g.MessageData(), msg) {
+		res.Violate("traversal-failed:in-frame", fmt.Sprintf("rotating the %d-byte block inside a frame changed the message behind it", size), wit)
+		return
+	}
+	res.Count("blocks_carried_in_frames", 1)
+	res.Count(fmt.Sprintf("blocks_carried_in_frames:size%d", min(size/32*32, 224)), 1)
+	if size == 255 {
+		res.Count("blocks_carried_in_frames:exactly255", 1)
+	}
+}
+
 func parallel(n int, fn func(w int)) {
 	var wg sync.WaitGroup
 	for w := 0; w < n; w++ {
@@ -415,6 +526,27 @@ func run(c *core.Ctx) {
 	nRandom := c.Q(60000, 3000000)
 	parallel(W, func(w int) {
 		r := core.RNG(fmt.Sprintf("c12/random/%d", w))
+		fb := frame.NewFrameBuilder()
+		fb.SetFrameMargins(12, 16)
+		if w == 0 {
+			// paths whose block is exactly 253, 254 and 255 bytes (85 three-byte labels = 255)
+			for _, spec := range [][2]int{{85, 0}, {84, 1}, {84, 2}, {84, 3}, {83, 4}, {80, 15}} {
+				var fwd, ret []m.SwitchLabel
+				for k := 0; k < spec[0]; k++ {
+					fwd = append(fwd, m.SwitchLabel(16384+r.IntN(40000)))
+				}
+				for k := 0; k < spec[1]; k++ {
+					fwd = append(fwd, m.SwitchLabel(1+r.IntN(120)))
+				}
+				fwd = append(fwd, 0)
+				ret = make([]m.SwitchLabel, len(fwd))
+				for k := 1; k < len(ret); k++ {
+					ret[k] = m.SwitchLabel(1 + r.IntN(120))
+				}
+				checkPath(res, fwd, ret, false)
+				checkFrameCarrier(res, fb, fwd, ret)
+			}
+		}
 		for i := w; i < nRandom; i += W {
 			var fwd, ret []m.SwitchLabel
 			if i%5 == 0 {
@@ -436,6 +568,24 @@ func run(c *core.Ctx) {
 				}
 				checkRebuild(res, fwd, ret, fwd2, ret2)
 				checkRebuild(res, fwd2, ret2, fwd, ret)
+				if len(fwd2) == len(fwd) {
+					checkTableUpdate(res, r, fwd, ret, fwd2, ret2)
+				} else {
+					// same hop count, other labels
+					fwd3, ret3 := append([]m.SwitchLabel(nil), fwd...), append([]m.SwitchLabel(nil), ret...)
+					for k := range fwd3 {
+						if fwd3[k] != 0 {
+							fwd3[k] = randLabel(r, [3]int{1, 1, 1})
+						}
+						if ret3[k] != 0 {
+							ret3[k] = randLabel(r, [3]int{1, 1, 1})
+						}
+					}
+					checkTableUpdate(res, r, fwd, ret, fwd3, ret3)
+				}
+			}
+			if i%7 == 0 {
+				checkFrameCarrier(res, fb, fwd, ret)
 			}
 		}
 	})
@@ -444,4 +594,6 @@ func run(c *core.Ctx) {
 	res.Require(res.Counter("oversize_paths_refused") >= 100, "fewer than 100 oversize paths exercised")
 	res.Require(res.Counter("paths_traversed_both_ways") >= 10000, "fewer than 10000 traversals")
 	res.Require(res.Counter("paths_rebuilt_in_place") >= 1000, "fewer than 1000 in-place rebuilds")
+	res.Require(res.Counter("table_route_updates") >= 500, "fewer than 500 route updates through a table")
+	res.Require(res.Counter("blocks_carried_in_frames:exactly255") >= 1, "no 255-byte block was carried in a frame")
 }
